@@ -163,3 +163,15 @@ CHECKS['C03'] = dict(
          'unchanged; rows and cells are assembled in order. Whole-cell consumption (F3) is a known finding.',
     note='Claims these clauses only - NOT cell-for-cell equality of export and source: the generated parser is not analysed.',
 )
+
+CHECKS['C10'] = dict(
+    category='other',
+    technique='constant tables; affine normal form of compute_position; writer/reader codec agreement by parity case-split enumeration of the extracted integer expressions; sibling agreement with HumdrumPitchExporter; grammar alphabet vs importer alphabet on the conversion path; non-interference of the clef octave marks; writer/reader key agreement for the clef in force',
+    text='Decides, relative to the bottom-line constants: the staff position is an affine translation with coefficient 1 per diatonic step and 7 per '
+         'octave, accidentals do not move it; T@n/S@n writer and reader are inverse up to the constant 2 for both parities and signs; steps map '
+         'to kern letters exactly like the Humdrum exporter; bottom line -> e, identity under G2; the conversion input contains only characters '
+         'the pitch importer understands and the accidental text reaches the output; octave marks do not change the clef; the clef in force is '
+         'read under the key the importer writes.',
+    note='Integer expressions extracted from line()/space()/is_line()/gkern_to_g_clef_pitch are evaluated by the checker over -30..30 (two full '
+         'periods of the mod-2 / mod-7 structure in both signs); repository code is never executed. Not decided: musical truth of the bottom-line constants.',
+)
